@@ -129,6 +129,8 @@ def run_proof(modname, proofname, opts=None, sources=None):
                 'undecided': ob.undecided[:3],
                 'time_s': round(ob.time_s, 4),
                 'backends': sorted(ob.backends)})
+    except ProofTimeout:
+        raise
     except Exception:
         res['errors'].append(['crash', traceback.format_exc(), []])
     res['wall_s'] = round(time.time() - t0, 3)
@@ -180,8 +182,31 @@ def restore_modules(it, snap):
                 v.ns.update(a)
 
 
+class ProofTimeout(Exception):
+    pass
+
+
 def _job(args):
-    return run_proof(*args)
+    """One proof in a worker, under a wall-clock limit (a source change can
+    make queries slow; that must end as UNDECIDED, not as a hang)."""
+    import signal
+    opts = args[2] or {}
+    limit = int(opts.get('proof_wall_limit_s', 600))
+
+    def on_alarm(signum, frame):
+        raise ProofTimeout()
+    old = signal.signal(signal.SIGALRM, on_alarm)
+    signal.alarm(limit)
+    try:
+        return run_proof(*args)
+    except ProofTimeout:
+        return {'module': args[0], 'proof': args[1], 'obligations': [],
+                'errors': [['timeout', 'proof exceeded %d s of wall time'
+                            % limit, []]], 'covered': [], 'paths': 0,
+                'targets': [], 'assumes': []}
+    finally:
+        signal.alarm(0)
+        signal.signal(signal.SIGALRM, old)
 
 
 def property_tasks(prop, opts=None, sources=None, only=None, kind='proof'):
